@@ -136,6 +136,11 @@ def posmc_spaces(prop, tier):
             sig(s, 2)
         for name, (fen, dq, dt) in ARENAS.items():
             jobs.append(["games|%s|%d" % (fen, dq if q else dt)])
+        # histories around and beyond the 800-entry history ring: full trees (depth 2-3) and
+        # knight-shuffle trees deep enough for three-fold repetition across the wrap-around
+        for n in ([796, 799, 800, 801, 1599, 1601] if q else list(range(790, 812)) + [1595, 1599, 1600, 1601, 1605, 1650]):
+            jobs.append(["longgames|%d|%d" % (n, 2 if q else 3)])
+            jobs.append(["longgames|%d|%d|auto" % (n, 10 if q else 12)])
     elif prop == "C17":
         for s in (["KQk", "KPk", "Kkp", "KRk", "Kkn"] if q else MEN3):
             sig(s, 8)
